@@ -206,6 +206,18 @@ def generate(streams: Streams, tier: str, index: int) -> dict:
             opts.pop("interface_width", None)
             opts["perturb"] = rng.choice([0.0, 0.25, 0.5])
             opts["shuffle_seed"] = rng.randrange(1 << 30)
+            # hand-made candidates: centred exactly on a support point of the grid and, for the
+            # perturbed models, with non-zero amplitudes
+            opts["snap"] = rng.random() < 0.3
+            d3 = grid["kind"] == "cart" and scenes.grid_dim(grid) == 3
+            if grid["kind"] == "cart" and scenes.grid_dim(grid) in (2, 3) and \
+                    rng.random() < (0.6 if d3 else 0.3):
+                opts["snap"] = opts["snap"] or (d3 and rng.random() < 0.6)
+                opts["modes"] = rng.choice([1, 2, 3])
+                opts["cand_amps"] = [scenes.q(rng.uniform(-0.2, 0.2)) for _ in range(opts["modes"])]
+                ra0 = dict(opts.get("refine_args") or {})
+                ra0.setdefault("least_squares_params", {"max_nfev": 10})
+                opts["refine_args"] = ra0
     else:
         nf = rng.choice([1, 2, 3, 3, 4, 5, 6, 8])
         frames = [_gen_frame(rng, grid, 4) for _ in range(nf)]
@@ -310,6 +322,8 @@ def _build_call(case: dict, share_inputs: bool = False):
                     return ds
             return ds
         shuffle_seed = opts.pop("shuffle_seed", 0)
+        snap = opts.pop("snap", False)
+        cand_amps = opts.pop("cand_amps", None)
         modes = opts.pop("modes", 0)
         ra = opts.pop("refine_args", None) or {}
         base = locate_droplets(fields[0], 0.5, modes=modes)
@@ -320,6 +334,11 @@ def _build_call(case: dict, share_inputs: bool = False):
             d.position = d.position + perturb * np.array([r.choice([-1, 1]) for _ in d.position])
             if fields[0].grid.__class__.__name__ == "CylindricalSymGrid":
                 d.position[:2] = 0
+            elif snap:
+                d.position = np.array([ax[int(np.argmin(np.abs(ax - x)))] for ax, x in
+                                       zip(fields[0].grid.axes_coords, d.position)])
+            if cand_amps and hasattr(d, "amplitudes"):
+                d.amplitudes = np.array(cand_amps, dtype=float)
             cands.append(d)
         r.shuffle(cands)
         # a candidate list assembled from several detection passes may hold the same droplet
